@@ -128,7 +128,7 @@ def sym_matches(rsym, act_fn, rtol=1e-9):
     (beta maps ('p', name)/('r', n) -> V).  Returns None | Mismatch; raises IllConditioned
     if no sample point is usable."""
     usable = 0
-    cond = N.mpf(rtol) / 100
+    cond = N.mpf("1e-6")      # a point is usable while the reference still fixes six digits (its error bound is part of the tolerance)
     for beta in sym_points(rsym.syms, rsym):
         try:
             ref = rsym.eval(beta)
